@@ -2,6 +2,7 @@
 Bound: every triple (ancestor, ours, theirs) of listings over the key universe {('a',), ('b',), ('d','c')} and values {absent, v1, v2, v1' (same hash as v1, other metadata)}
 (262144 triples; the thorough tier samples 40000 of them, the 3-value sub-universe of 19683 triples was run exhaustively once, see DESIGN), under the policies None (default), ['add'], ['add','remove'], ['add','remove','change'].  n limits the number of triples (0 = all)."""
 import logging; logging.disable(logging.CRITICAL)
+import _memfs  # noqa: E402
 import itertools, json, os, random, sys
 SRC = os.environ.get("PYVC_REPO_SRC", "/repo/src")
 sys.path.insert(0, SRC)
@@ -71,6 +72,7 @@ def main(n, seed):
     with tempfile.TemporaryDirectory(dir="/var/tmp") as tmp:
         odb = HashFileDB(LocalFileSystem(), os.path.join(tmp, "odb"))
         for i, (anc, ours, theirs) in enumerate(triples):
+            _memfs.reset()
             if i % 40 or not ours or not theirs:
                 continue
             for allowed in (None, ["add", "remove", "change"]):
